@@ -361,6 +361,12 @@ class _Num:
     def __hash__(self):
         raise Unsupported("symbolic number used as a hash key")
 
+    def __deepcopy__(self, memo):
+        return self          # immutable
+
+    def __copy__(self):
+        return self
+
     def __repr__(self):
         if FormatTrace.active is not None:
             return FormatTrace.active.token(self.t)
